@@ -82,8 +82,18 @@ func execM(cd *common.Codec, sc *Scenario, data []byte, x *simkit.Ctx, allocByte
 	r := &result{}
 	buf := simkit.Exact(data)
 	str := string(data)
+	if sc.Entry == "parsestring" {
+		// a string constant: read-only memory (simkit.ReadOnlyString)
+		if ro, ok := simkit.ReadOnlyString(data); ok {
+			str = ro
+			x.Stats.Fault("input-string-in-read-only-memory")
+		}
+	}
 	a0 := allocBytes()
 	r.panic = simkit.Guard(func() {
+		if sc.Entry == "parsestring" {
+			defer debug.SetPanicOnFault(debug.SetPanicOnFault(true))
+		}
 		switch sc.Entry {
 		case "parse":
 			r.err = cd.Parse(buf, t)
